@@ -1,19 +1,34 @@
 /- GENERATED: instance obligations for one logic, discharged by kernel evaluation.
-   `X ⊆ known`: every failing row is a committed known finding (Ptx/Gen/Known.lean). -/
+   `S` = the logic with its DOCUMENTED tables (Ptx/Sem/Spec.lean); rules, closure, trunk and frames
+   are what the translator read off the code.  `X ⊆ known`: every failing row is a committed
+   known finding (Ptx/Gen/Known.lean, generated from known_findings.json). -/
 import Ptx.Gen.L_GO
 import Ptx.Gen.Known
 import Ptx.Sem.Subset
+import Ptx.Props.C01
 namespace Ptx.Gen.Obl.GO
 open Ptx
 
-theorem tables_total : Gen.GO.tablesTotalB = true := by decide +kernel
-theorem rules_exact : subsetB Gen.GO.badRules (Known.badRules "GO") = true := by decide +kernel
-theorem rules_sound : subsetB Gen.GO.unsoundRules (Known.unsoundRules "GO") = true := by decide +kernel
-theorem rules_total : subsetB Gen.GO.missingRules (Known.missingRules "GO") = true := by decide +kernel
-theorem rules_local : Gen.GO.nonLocalRules = [] := by decide +kernel
-theorem closure_total : Gen.GO.closureTotalB = true := by decide +kernel
-theorem closure_exact : subsetB Gen.GO.badClosure (Known.badClosure "GO") = true := by decide +kernel
-theorem read_total : Gen.GO.readTotalB = true := by decide +kernel
-theorem read_exact : subsetB Gen.GO.badRead (Known.badRead "GO") = true := by decide +kernel
+/-- a modal / first-order extension has exactly the truth-functional tables of its base (GO) -/
+theorem base_tables : Gen.GO.tables.sameTF Gen.GO.tables = true := by decide +kernel
+theorem spec_defined : Gen.GO.specDefinedB = true := by decide +kernel
+theorem tables_spec : subsetB Gen.GO.tableDiff (Known.tableDiff "GO") = true := by decide +kernel
+theorem defined_ops : Gen.GO.tables.definedOpsBad = [] := by decide +kernel
+theorem tables_total : Gen.GO.sem.tablesTotalB = true := by decide +kernel
+theorem rules_exact : subsetB Gen.GO.sem.badRules (Known.badRules "GO") = true := by decide +kernel
+theorem rules_sound : subsetB Gen.GO.sem.unsoundRules (Known.unsoundRules "GO") = true := by decide +kernel
+theorem rules_total : subsetB Gen.GO.sem.missingRules (Known.missingRules "GO") = true := by decide +kernel
+theorem rules_local : Gen.GO.sem.nonLocalRules = [] := by decide +kernel
+theorem closure_total : Gen.GO.sem.closureTotalB = true := by decide +kernel
+theorem closure_exact : subsetB Gen.GO.sem.badClosure (Known.badClosure "GO") = true := by decide +kernel
+theorem read_total : Gen.GO.sem.readTotalB = true := by decide +kernel
+theorem read_exact : subsetB Gen.GO.sem.badRead (Known.badRead "GO") = true := by decide +kernel
+theorem sound_core : Gen.GO.sem.soundCoreB = true := by decide +kernel
+
+/-- C01 for this logic: a closed tableau reached by any legal derivation has no countermodel. -/
+theorem c01_valid_sound (arg : Argument) (t : Tableau)
+    (hd : Deriv Gen.GO.sem.soundPart.noQuantPart (trunk Gen.GO.sem arg) t) (hclosed : t.allClosed = true)
+    (M : Struct) (hM : M.Interp Gen.GO.sem) (e : Env M.D) (w0 : M.W) : ¬ Countermodel Gen.GO.sem M e w0 arg :=
+  Props.C01.C01_valid_sound_partial Gen.GO.sem sound_core arg t hd hclosed M hM e w0
 
 end Ptx.Gen.Obl.GO
